@@ -122,6 +122,11 @@ def _run_shard(binary, scn_file, out_base, seed, workdir, test="TestDrive", time
                 running = None
         crashes += 1
         stderr_tail = err[-3000:]
+        if running is None and done > 0 and ("blocked goroutines remain" in err or "deadlock: all goroutines in bubble are blocked" in err):
+            # goroutines of the transport were still blocked when the bubble of the last scenario ended: its "end"
+            # event already carries the leak count (C20); go on behind it
+            skip += done
+            continue
         if running is None:
             # died between scenarios or before the first event: harness problem, not the code's
             raise Inconclusive("harness process died outside a scenario (rc=%s):\n%s" % (rc, stderr_tail))
@@ -250,23 +255,28 @@ def tlc(work, module, cfg_text, workers=1, timeout=1800, heap=None, extra=None, 
     return p.returncode, out, stats
 
 
-def printed_json(out):
-    """TLC PrintT(ToJson(x)) lines: a TLA+ string literal is a JSON string literal"""
+def printed_json(out, keep=None):
+    """TLC PrintT(ToJson(x)) lines: a TLA+ string literal is a JSON string literal.
+    keep(row) -> bool lets the caller thin out very large exports while they are parsed."""
     res = []
+    n = 0
     for ln in out.split("\n"):
         if ln.startswith('"{') or ln.startswith('"['):
             try:
-                res.append(json.loads(json.loads(ln)))
+                row = json.loads(json.loads(ln))
             except Exception:
-                pass
-    return res
+                continue
+            n += 1
+            if keep is None or keep(row):
+                res.append(row)
+    return res, n
 
 
 def model_check(work, module, consts, invariants=(), props=(), workers=None, timeout=1800, export=False, name=None,
-                constraint=None, view=None, extra=None):
+                constraint=None, view=None, extra=None, spec="Spec", keep=None):
     """exhaustive TLC run of an MC_* module; the spec must satisfy its invariants, otherwise
     the machinery itself is broken (inconclusive, never a verdict about the code)"""
-    lines = ["SPECIFICATION Spec", "CONSTANTS"]
+    lines = ["SPECIFICATION " + spec, "CONSTANTS"]
     for k, v in consts.items():
         lines.append("  %s = %s" % (k, v))
     for i in invariants:
@@ -282,9 +292,10 @@ def model_check(work, module, consts, invariants=(), props=(), workers=None, tim
     if rc != 0:
         raise Inconclusive("model check %s failed (rc=%d): the specification violates its own monitors or does not evaluate:\n%s"
                            % (name or module, rc, tail_of(out)))
-    rows = printed_json(out) if export else []
-    log("[tlc] %s %s: %d states (%d distinct), %d behaviours exported, %.1fs" % (
-        name or module, json.dumps(consts), stats["generated"], stats["distinct"], len(rows), stats["wall_s"]))
+    rows, nexp = printed_json(out, keep) if export else ([], 0)
+    stats["exported"] = nexp
+    log("[tlc] %s %s: %d states (%d distinct), %d behaviours exported (%d kept), %.1fs" % (
+        name or module, json.dumps(consts), stats["generated"], stats["distinct"], nexp, len(rows), stats["wall_s"]))
     return stats, rows, out
 
 
